@@ -333,3 +333,15 @@ pub assume_specification<T, E> [std::result::Result::<T, E>::unwrap_or] (r: std:
 pub assume_specification<T: Ord + core::marker::Destruct> [std::cmp::min] (a: T, b: T) -> (r: T)
     ensures T::obeys_cmp_spec() ==> r == (if a.cmp_spec(&b) == Ordering::Greater { b } else { a }),
 ;
+
+// Arc::clone returns an equal Arc (vstd states this for a direct call; this makes it available when the
+// clone happens inside Option::clone)
+pub mod clone_axiom {
+    use vstd::prelude::*;
+    use std::sync::Arc;
+    #[verifier::external_body]
+    pub broadcast proof fn axiom_arc_cloned<T>(a: Arc<T>, b: Arc<T>)
+        ensures #[trigger] cloned(a, b) ==> a == b
+    {}
+}
+broadcast use clone_axiom::axiom_arc_cloned;
